@@ -41,7 +41,20 @@ Bounded exhaustive exploration on the real code:
        re-read object and on the object after it has written its files (file-name fields set);
  part (i) is run for every identification threshold of a small per-seed alphabet (the threshold is the one
        configuration value that shapes the reports of a results object): direct load and estimate(recycle=True)
-       by an identically configured BIOGEME object must give the same reports.
+       by an identically configured BIOGEME object must give the same reports;
+ (fig) every FIGURE of every report format over a magnitude / special-value alphabet: results objects whose estimates
+       take every value of an alphabet (mantissas that print with one, three or a carried digit x 10^-7 .. 10^+7, both
+       signs, exact integers, +-0, nan, +-inf) x standard errors x correlations x robust / Rao-Cramer ratios x with /
+       without a bootstrap matrix (synthetic raw results handed to bioResults, K = 2 and 3), the degenerate shapes of
+       the second-derivative matrix (singular, not negative definite, nan in BHHH) and real estimations whose active
+       bound is an alphabet value: in get_html / get_latex (both variants), get_f12 (both variants) and the printed
+       form every token printed for an estimate, a standard error, t, p, a covariance or a correlation must parse as
+       a number that equals the figure of the results object to the precision of the format (independent reader
+       vf/ref_reports.py); a subset is saved and loaded again and must give the same reports; the same oracle runs on
+       the real results objects of part (iii) with plain names;
+ (vt)  value TYPES of a parameter: every parameter of the default set x a type alphabet (Python bool / int / float / str,
+       numpy integer / float / bool / str scalars, inf, nan): every value that set_value accepts must survive
+       dump_file -> tomllib -> read_file in a fresh object.
 """
 from __future__ import annotations
 
@@ -63,7 +76,10 @@ TECHNIQUE = ('explicit-state BFS over output-generation histories in pre-populat
              'exhaustive bounded-length operation histories on one results object (writers x model-name alphabet x '
              'pre-populated directories) and on one Parameters object (set / dump / read) against a reference dictionary; '
              'long single-name histories (every length 1..N, N beyond the 2- and 3-digit numbering) through every entry '
-             'point that asks for a fresh name, against a reference model of the directory')
+             'point that asks for a fresh name, against a reference model of the directory; bounded exhaustive '
+             'enumeration of results objects over a magnitude / special-value alphabet of their figures, every printed '
+             'token of every report format read by an independent reader; enumeration of the value-type alphabet of '
+             'every parameter through the TOML round trip')
 RULE = ('(i) one case per (model kind, name pool, bootstrap) results object and compared artefact; (ii) one case per '
         'set of <=2 deviations (parameter, value) from the default parameter set, non-trivial when the file differs '
         'from the default file; hand-written files: one case per (boolean parameter, spelling); (iii) one case per '
@@ -77,6 +93,10 @@ RULE = ('(i) one case per (model kind, name pool, bootstrap) results object and 
         'second step on; (L) one case per (entry point, name, extension, directory pattern, number of earlier outputs), '
         'non-trivial when at least one earlier output of the name exists; (i)/(iii) results objects also vary in how they '
         'came about (estimate / quick_estimate / quick_estimate after bootstrap / estimate with null log likelihood). '
+        '(fig) one case per (results object = (estimates, standard errors, correlation, robust ratio, bootstrap, shape of '
+        'the second-derivative matrix) of the product of the seed\'s alphabets, report writer variant); every case is '
+        'non-trivial; the first object of every estimate runs every writer variant, the others the widest variant; '
+        '(vt) one case per (parameter, typed value) accepted by set_value. '
         'distinct = distinct (part, witness) keys.')
 ASSUMPTIONS = [
     'datetime.now() as seen from biogeme.biogeme / biogeme.results / biogeme.parameters is owned (frozen instant), so '
@@ -85,8 +105,17 @@ ASSUMPTIONS = [
     'objects with a bootstrap matrix',
     'the saved-iteration file __<model>.iter is rewritten in place by design (property C15) and is outside the '
     'no-overwrite invariant; biogeme.toml is never rewritten by read_file and is inside it',
-    'parameter values are plain Python bool / int / float / str of the declared type accepted by the library\'s own '
-    'check functions (numpy integers and bools for numeric parameters are outside the alphabet)',
+    'parts (ii), (p): parameter values are plain Python bool / int / float / str of the declared type accepted by the '
+    'library\'s own check functions; part (vt) adds the type alphabet (numpy scalars, bool for numeric parameters): '
+    'admissible = accepted by Parameters.set_value without error; a value that set_value refuses is outside the statement',
+    'part (fig): synthetic results objects are raw results of a real estimation whose estimates / second-derivative / '
+    'BHHH / bootstrap matrices are replaced and handed to the public constructor bioResults(raw), which derives every '
+    'statistic itself; the expected figure is the one the results object holds (Beta.value, stdErr, ..., '
+    'secondOrderTable), the estimates are the ones put in; a printed token is right when it is a number (usual '
+    'notation, nan, inf) within half a unit of the last digit the format prints (3 digits: HTML, LaTeX, printed form; '
+    '13 digits: F12; 1/100000: F12 correlations, compared only when the correlation is defined); rows of PAIRS of '
+    'parameters are read when present, their presence is not demanded (the statement speaks of parameters); the '
+    'figures of the general statistics (log likelihoods, rho squares, criteria) are not read',
     'parts (n), (iv), (w): fewer than 100 files per base name; part (L): up to 135 (quick) / 1100 (thorough) outputs of one '
     'name, where only the statement is demanded (the name is new, nothing earlier is touched), not a particular '
     'rendering of numbers beyond 99',
@@ -1261,7 +1290,8 @@ def fig_alphabets(tier, seed=None):
 def fig_bounds(seed=None):
     """(lower, upper) bounds on the constant of the real estimations of part (fig): the bound is active."""
     m = FIG_MANTISSAS[(_SEED if seed is None else seed) % 4]
-    return [(None, m[0] * 1e-5), (None, -m[0] * 1e3), (m[1] * 1e3, None), (None, -m[1] * 1e-7), (m[0] * 1e7, None)]
+    return [(-m[0] * 1e-5, m[0] * 1e-5), (None, -m[0] * 1e3), (m[1] * 1e3, None), (-m[1] * 1e-7, m[1] * 1e-7),
+            (m[0] * 1e7, None)]
 
 
 def _hex(x):
@@ -1544,7 +1574,7 @@ def check_fig_object(spec, rec, roundtrip=False, full=False):
         lb, ub = [_unhex(h) for h in spec['real']]
         bound = lb if lb is not None else ub
         got = r.get_beta_values()
-        if bits(got.get('ASC', float('nan'))) != bits(bound):
+        if bits(abs(got.get('ASC', float('nan')))) != bits(abs(bound)):
             # the bound is not active: the object is an ordinary one (still checked), but the alphabet value is not reached
             rec.count('fig_real_bound_not_active')
     else:
@@ -1617,7 +1647,7 @@ def fig_tasks(tier):
     A = fig_alphabets(tier)
     n = len(A['values'])
     t = [dict(part='fig', tier=tier, K=2, shape='regular', real=True)]
-    step = 4 if tier == 'quick' else 2
+    step = 4 if tier == 'quick' else 1
     for lo in range(0, n, step):
         t.append(dict(part='fig', tier=tier, K=2, shape='regular', lo=lo, hi=lo + step))
     for shape in FIG_SHAPES[1:]:
